@@ -86,3 +86,18 @@ def observe(trace_files, workdir, njvm=16):
             f = lambda g: set(x.strip().strip('"') for x in g.split(",") if x.strip())
             viol[run] = (f(m.group(2)), f(m.group(3)), f(m.group(4)))
     return viol, total_lines
+
+
+DRIFT = re.compile(r'<<\s*"DRIFT",\s*(\d+),\s*"([a-z]+)"\s*>>')
+
+def conform(name, trace, metadir, timeout=1800):
+    """CF_<name> over a trace file.  Returns (accepted, [(line, ev)] drift lines, raw output)."""
+    env = dict(os.environ, TRACE=trace, JAVA_TOOL_OPTIONS=JOPTS + " -Xmx4g -DTLA-Library=/verif/spec")
+    cmd = ["timeout", str(timeout), "tlc", "-workers", "1", "-metadir", metadir, "-cleanup", "-noGenerateSpecTE",
+           "-config", f"CF_{name}.cfg", f"CF_{name}.tla"]
+    p = subprocess.run(cmd, cwd=SPEC + "/mc", env=env, capture_output=True, text=True)
+    shutil.rmtree(metadir, ignore_errors=True)
+    out = p.stdout
+    drifts = sorted(set((int(m.group(1)), m.group(2)) for m in DRIFT.finditer(out)))
+    ok = "No error has been found" in out
+    return ok, drifts, out
